@@ -359,6 +359,10 @@ class CallMixin:
                 raise Unsupported(f"{ci.name}() with arguments but no __init__ in source")
             return k(s2, obj)
         fi = r[1]
+        if self.short_name(fi) in self.reg.inline_ctor:
+            # constructing a statically known class: execute the real __init__ (its polymorphic hooks then
+            # resolve to the exact class' overrides) instead of using its behavioural contract
+            return self.inline_call(s2, fi, [obj] + args, kwargs, lambda s3, _r: k(s3, obj), where)
         return self.call_function(s2, ("src", fi, self.short_name(fi)), [obj] + args, kwargs,
                                   lambda s3, _r: k(s3, obj), where=where)
 
